@@ -12,6 +12,11 @@ from vlib import gen
 from vlib.ref import fieldmodel as fm
 from vlib.runner import Skip, Violation, enum, expect_raises, hyp, lentil_call
 
+# the check's own calls are issued with keywords or positionally in the documented order (vlib/callforms.py)
+from vlib import callforms as _cf
+lentil = _cf.proxy(lentil)
+lfield = _cf.proxy(lfield, "field.")
+
 RULE = ("fields with drawn shapes (1..6 per axis, one-element included where the property defines them), "
         "integer offsets of either sign, targets 1..11; non-trivial = operands/target partially overlap, "
         "are clipped on at least one side, or lie wholly outside; thorough adds complete enumerations")
